@@ -178,6 +178,8 @@ class Mini:
             if n == 'None':
                 return None
             if n in self.statics:
+                if self.statics[n]['e'].get('k') in ('int', 'byte', 'bool'):
+                    return self.statics[n]['e']['v']      # a scalar constant (`const NO_TRANSITION: u8 = 255`)
                 return ('table', n)
             raise Undecided('name %s' % n)
         if k == 'paren' or k == 'group':
